@@ -2,8 +2,9 @@ SPECIFICATION Spec
 CONSTANTS
   Readers = {1, 2}
   Late = {}
-  NReq = 2
+  NReq = 1
   Interrupts = FALSE
-  Mut = "edge"
-  UmountWaits = FALSE
+  Mut = "exit-loses"
+  UmountWaits = TRUE
 INVARIANTS TypeOK DeliveredOnce BufferIsRequest ExitWins NoneJustified NoLostWake NoLostReadiness ResultsAllowed NothingLost
+PROPERTIES WakeWorks UmountWorks Termination
